@@ -247,6 +247,9 @@ func (g *Gen) AST(depth int) *N {
 	if depth <= 0 {
 		return g.Leaf()
 	}
+	if depth >= 2 && g.Rnd.Intn(6) == 0 {
+		return g.SameLabelShape()
+	}
 	switch g.Rnd.Intn(7) {
 	case 0:
 		return g.Leaf()
@@ -267,6 +270,46 @@ func (g *Gen) AST(depth int) *N {
 		}
 		return &N{Op: op, Args: args}
 	}
+}
+
+// SameLabelShape: an AND of a leaf over label k with an OR of eq / in leaves over the SAME label whose
+// values come in an arbitrary (typically unsorted) order, 2-4 of them; the OR is the later or the earlier
+// operand.  The restriction derivation has to intersect / unite value lists that are not in sorted order.
+func (g *Gen) SameLabelShape() *N {
+	k := g.key()
+	vals := append([]string{}, g.Vals...)
+	g.Rnd.Shuffle(len(vals), func(i, j int) { vals[i], vals[j] = vals[j], vals[i] })
+	n := 2 + g.Rnd.Intn(3)
+	if n > len(vals) {
+		n = len(vals)
+	}
+	or := &N{Op: "or"}
+	for _, v := range vals[:n] {
+		if g.Rnd.Intn(4) == 0 {
+			or.Args = append(or.Args, &N{Op: "in", K: k, Vs: []string{v, vals[g.Rnd.Intn(len(vals))]}})
+		} else {
+			or.Args = append(or.Args, &N{Op: "eq", K: k, V: v})
+		}
+	}
+	var leaf *N
+	switch g.Rnd.Intn(4) {
+	case 0:
+		leaf = &N{Op: "has", K: k}
+	case 1:
+		leaf = &N{Op: "eq", K: k, V: vals[g.Rnd.Intn(len(vals))]}
+	default:
+		set := append([]string{}, g.Vals...)
+		g.Rnd.Shuffle(len(set), func(i, j int) { set[i], set[j] = set[j], set[i] })
+		leaf = &N{Op: "in", K: k, Vs: set[:1+g.Rnd.Intn(len(set))]}
+	}
+	and := &N{Op: "and", Args: []*N{leaf, or}}
+	switch g.Rnd.Intn(4) {
+	case 0:
+		and.Args = []*N{or, leaf}
+	case 1:
+		and.Args = []*N{leaf, or, g.Leaf()}
+	}
+	return and
 }
 
 // ---- rendering ------------------------------------------------------------------------------------
